@@ -33,8 +33,8 @@ ASSUMPTIONS = [
     "_create_odesys parameter_expressions are modelled for string-named rate constants only",
 ]
 
-QUICK = ["cfg_q", "sys_q", "full_q", "const_q", "sym_q"]
-THOROUGH = ["cfg_t", "comp_t", "sys_t", "sys3_t", "full_t", "orders_t", "const_t", "constw_t", "sym_t"]
+QUICK = ["cfg_q", "sys_q", "full_q", "const_q", "mix_q", "hist_q"]
+THOROUGH = ["cfg_t", "comp_t", "sys_t", "sys3_t", "full_t", "orders_t", "const_t", "constw_t", "sym_t", "uk2_t", "feedmap_t", "hist_t"]
 # coverage (vacuity guard) is read on the smallest slice; it takes all four actions
 ACTIONS = {"full_q": ["OAdd", "OState", "OFeed", "GenBuild"], "full_t": ["OAdd", "OState", "OFeed", "GenBuild"]}
 
@@ -54,6 +54,7 @@ def _key(cin, field, error, cls):
     return dict(fn=cfg["builder"], field=field, error=error, incl=cfg["incl"], cstr=cfg["cstr"],
                 kinds=",".join(cfg["kinds"]), subs=",".join(cfg["subs"]), comp=cfg["comp"], cls=cls,
                 gsub=cfg.get("gsub", "none"), fsub=cfg.get("fsub", "none"),
+                feedorder=",".join(cin["feed"].get("order") or []), hist=len(cin.get("hist") or []),
                 consts=",".join(cfg.get("consts", [])), symorder=",".join(cfg.get("symorder", [])))
 
 
@@ -92,7 +93,11 @@ def _run_trace(arg):
     cin["cfg"] = dict(cfg, cstr=bool(sysd["feed"]))
     cin["comp"] = []
     # parameters are bound BY NAME to the values the trace declares (events below)
-    bind = {kc.kname(i + 1): r["kv"] for i, r in enumerate(sysd["rxns"])}
+    bind = {}
+    for rx in cin["rxns"]:
+        bind[kc.kname(rx["k"])] = rx["kv"]
+        bind[kc.pname(rx["k"])] = rx["kv"]
+        bind[kc.qname(rx["k"])] = cfg["qval"]
     bind["T"] = cfg["tval"]
     bind["a1"] = cfg["aval"]
     bind["g"] = cfg["gval"]
@@ -133,6 +138,12 @@ def _trace_direction(ctx, n):
         sysd["subst"] = [s for s in sysd["subst"] if s in used]
         if sysd["feed"]:
             sysd["feed"]["cf"] = {s: sysd["feed"]["cf"][s] for s in sysd["subst"]}
+            kept = [s for s in sysd["feed"]["order"] if s in sysd["subst"]]
+            if not kept or not sysd["feed"]["usermap"]:
+                sysd["feed"].update(order=list(sysd["subst"]), usermap=False)
+            else:
+                sysd["feed"]["order"] = kept
+        sysd["hist"] = [h for h in sysd["hist"] if h[0] <= len(sysd["rxns"])]
         items.append((sysd, kc.gen_build_config(ctx.rng, len(sysd["rxns"]), substs=sysd["subst"],
                                                 feed=bool(sysd["feed"]))))
     outs = ctx.pmap(_run_trace, items)
@@ -193,7 +204,8 @@ def _warm_up():
     not each pay the first-build cost (~3 s)."""
     cin = {"subst": ["A", "B"], "rxns": [{"reac": [["A", 1]], "prod": [["B", 1]], "ireac": [], "iprod": [],
                                             "k": 1, "kv": [11, 1]}],
-           "c": [[2, 1], [3, 1]], "feed": {"on": False, "F": [0, 1], "cf": []}, "comp": [], "bind": [],
+           "c": [[2, 1], [3, 1]], "feed": {"on": False, "F": [0, 1], "cf": [], "order": [], "usermap": False},
+           "comp": [], "bind": [],
            "cfg": dict({"builder": "get_odesys", "incl": True, "kinds": ["num"], "subs": ["none"], "cstr": False,
                         "comp": False, "subvals": [[41, 1]], "aval": [53, 1], "tval": [59, 1]},
                        **kc.default_pk_fields())}
@@ -226,7 +238,7 @@ def run(ctx):
                         "params": c0["exp"]["params"], "poly": c0["exp"]["poly"]}, cap=8)
         ctx.counters["cases_" + sl] = len(res.cases)
     ctx.exhaustive = True
-    _trace_direction(ctx, 600 if ctx.quick else 8000)
+    _trace_direction(ctx, 400 if ctx.quick else 8000)
     _suite_direction(ctx)
 
 
